@@ -198,6 +198,50 @@ def tan(x):
     return SV(s.t / c.t)
 
 
+def _term_key(t):
+    import hashlib
+    return "t" + hashlib.md5(z3.simplify(t).sexpr().encode()).hexdigest()[:10]
+
+
+def ang_of_term(t, unit="deg"):
+    """angle form of an opaque z3 term used as an angle: linear structure (negation, sums, numeric factors, constants) is kept,
+    every other sub-term becomes its own atom (keyed by the term), so that cos(-x) = cos(x) etc. remain provable"""
+    def go(e):
+        from .poly import _num
+        n = _num(e)
+        if n is not None:
+            return {}, n
+        k = e.decl().kind() if z3.is_app(e) else None
+        ch = e.children() if z3.is_app(e) else []
+        if k == z3.Z3_OP_UMINUS:
+            lin, c = go(ch[0])
+            return {a: -v for a, v in lin.items()}, -c
+        if k in (z3.Z3_OP_ADD, z3.Z3_OP_SUB):
+            lin, c = go(ch[0])
+            lin = dict(lin)
+            for x in ch[1:]:
+                l2, c2 = go(x)
+                s = 1 if k == z3.Z3_OP_ADD else -1
+                for a, v in l2.items():
+                    lin[a] = lin.get(a, 0) + s * v
+                c = c + s * c2
+            return lin, c
+        if k == z3.Z3_OP_MUL and len(ch) == 2:
+            for a_, b_ in ((ch[0], ch[1]), (ch[1], ch[0])):
+                n = _num(z3.simplify(a_))
+                if n is not None:
+                    lin, c = go(b_)
+                    return {a: v * n for a, v in lin.items()}, c * n
+        if k == z3.Z3_OP_TO_REAL:
+            return go(ch[0])
+        key = _term_key(e)
+        atom_cs(key)
+        ctx().axiom(f"angle atom {key} stands for an opaque term", z3.Real(key) == real(e))
+        return {key: Fraction(1)}, Fraction(0)
+    lin, c = go(z3.simplify(t))
+    return Ang(lin, c, unit)
+
+
 def cs_deg(x):
     """(cos, sin) of an angle given in degrees (used by the scipy Rotation model with degrees=True)"""
     if not isinstance(x, SV):
@@ -205,9 +249,7 @@ def cs_deg(x):
         return _cs_of(Ang({}, f, "deg"))
     a = x.ang
     if a is None:
-        # an opaque number used as an angle: becomes its own atom, keyed by the term
-        key = f"t{abs(hash(x.t.sexpr())) % 10**10}"
-        a = Ang({key: 1}, 0, "deg")
+        a = ang_of_term(x.t)
     return _cs_of(a)
 
 
@@ -235,8 +277,7 @@ def deg2rad(x):
     r.ang = x.ang.with_unit("rad") if x.ang is not None else None
     if x.ang is None:
         # an opaque degree value: make it an atom so that cos/sin can be expanded later
-        key = f"t{abs(hash(x.t.sexpr())) % 10**10}"
-        r.ang = Ang({key: 1}, 0, "rad")
+        r.ang = ang_of_term(x.t).with_unit("rad")
     return r
 
 
